@@ -7,8 +7,10 @@ package test
 //
 //   - inproc_jwk_zoo: the `jwk` protected header of SignJWS is drawn from EVERY key type the JOSE library knows (EC
 //     P-256/384/521, RSA, OKP Ed25519, OKP X25519, symmetric `oct`) in public and in private/secret form, through the
-//     package function and through Crypto.SignJWS by kid, compact and detached. No output may carry a secret member
-//     (`d`, `p`, `q`, `dp`, `dq`, `qi`, `k`) of the header key: the caller keys' secret members are canaries of this op.
+//     package function and through Crypto.SignJWS by kid, compact and detached. For every header key whose raw form is a
+//     crypto.Signer (EC all curves, RSA, Ed25519 — the documented mechanism) no output may carry a secret member (`d`,
+//     `p`, `q`, `dp`, `dq`, `qi`) of it: those caller secrets are canaries of this op. Caller keys that are no
+//     crypto.Signer (X25519 private, `oct`) are only counted; node-key canaries apply throughout.
 //   - lc_*: the life cycle of a key id: New(kid) with a caller-chosen kid, sign/decrypt through every entry point,
 //     Delete, Exists, New again under the SAME kid. After Delete every entry point refuses the kid and the key file is
 //     gone; after re-creation a signature verifies under what Resolve(kid) returns now and not under the deleted key.
@@ -182,11 +184,14 @@ func (s *c03State) inprocJWKZoo(st c03Step) {
 						s.x.Classf("jwk_zoo:%s:private:signed-without-secret-members", z.Name)
 						continue
 					}
-					sig := "refusal:SignJWS:private-jwk-header-accepted"
 					if !z.Signer {
-						// key types whose raw form is no crypto.Signer: outside the documented mechanism, same statement
-						sig = "refusal:SignJWS:secret-jwk-header-not-a-signer-accepted"
+						// A caller-supplied secret key whose raw form is NOT a crypto.Signer (X25519 private, oct) is
+						// neither a node key nor covered by the documented mechanism ("refuses a jwk header that is
+						// assignable to crypto.Signer"): counted, no expectation. Node-key canaries still apply (sweep).
+						s.x.Classf("jwk_zoo:%s:private:signed-with-secret-members(no expectation: not a crypto.Signer)", z.Name)
+						continue
 					}
+					sig := "refusal:SignJWS:private-jwk-header-accepted"
 					if !reported[sig] {
 						reported[sig] = true
 						entry := "Crypto.SignJWS(kid)"
@@ -485,11 +490,10 @@ func (s *c03State) lifecycle(st c03Step) {
 			func() [][]byte { return s.lcNew(slot, "cycle: new again") },
 			func() [][]byte { return s.lcUse(slot, 0x1ff, "cycle: use after re-creation") },
 		}
+		// all phases run even after a violation: a kid that is still usable after Delete and a signature made with the
+		// deleted generation after re-creation are separate observations (separate signatures)
 		for _, f := range steps {
 			outs = append(outs, f()...)
-			if len(s.x.Violations()) > 0 {
-				break
-			}
 		}
 	}
 	s.n.sweep(s.x, st.Op, outs...)
